@@ -17,12 +17,13 @@ _Bool seen_q, cur_q, seen_a, cur_a, seen_t, cur_t; uint64_t g_cur_q, g_exp_paren
 uint64_t g_pos, g_len, g_exp_w, cell_child;       /* traversal of the children of the tuple under the cursor */
 uint64_t nt_len, nt_w;                            /* the image tuple being built: length, component wk */
 _Bool g_ucm, g_uc_valid, g_uts_valid, g_tl_valid, ins_w; uint64_t g_uc_state, g_uts_state, g_uts_sym, g_tl_len, g_tl_w;
-E_CMAP cell_cm; E_CLU cell_clu; SPV cell_tup; SPC cell_spc; SPTS cell_spts;
+E_CMAP cell_cm; E_CLU cell_clu; SPV cell_tup; SPC cell_spc, cell_spc2; SPTS cell_spts;
+void* VERIF_new(uint64_t n); void VERIF_delete(void* p); uint8_t g_newcell[256]; void* g_fresh_cluster; uint64_t g_idx_state;
 #define G_FIN  seen_f, cur_f, g_ssf_called, fin_done, g_cur_f, g_exp_f, cell_f
 #define G_L4   g_pos, nt_len, nt_w, cell_child
 #define G_L3   G_L4, seen_t, cur_t, g_cur_tid, g_len, g_exp_w, cell_tup, g_tl_valid, g_tl_len, g_tl_w, ins_w
 #define G_L2   G_L3, seen_a, cur_a, g_cur_a, cell_clu, g_uts_valid, g_uts_state, g_uts_sym, cell_spts
-#define G_L1   G_L2, seen_q, cur_q, g_cur_q, g_exp_parent, cell_cm, g_uc_valid, g_uc_state, cell_spc
+#define G_L1   G_L2, seen_q, cur_q, g_cur_q, g_exp_parent, cell_cm, g_uc_valid, g_uc_state, cell_spc, cell_spc2, g_fresh_cluster, g_idx_state, __CPROVER_object_whole(g_newcell)
 #define CONTRACT_RIS \
   __CPROVER_requires(v_this == g_this && v_dst == g_dst && !ins_w && !fin_done && !g_ssf_called && !g_ucm && !g_uc_valid && !g_uts_valid && !g_tl_valid) \
   __CPROVER_assigns(G_FIN, G_L1, g_ucm) \
